@@ -395,3 +395,202 @@ func init() {
 		return nil
 	}
 }
+
+// ---- sync.Map, sync.Once, sync/atomic, strings.Builder, time.Timer --------------
+
+type syncMapGhost struct{ m *MapObj }
+
+func (ex *Exec) syncMap(p *Ptr) *MapObj {
+	if p.Obj == nil {
+		ex.goPanicRuntime("nil pointer dereference")
+	}
+	k := "syncmap:" + ptrKey(p)
+	if g, ok := ex.ghost[k]; ok {
+		return g.(*MapObj)
+	}
+	ex.nextObj++
+	m := &MapObj{ID: ex.nextObj}
+	ex.ghost[k] = m
+	return m
+}
+
+type builderGhost struct{ s *Str }
+
+func (ex *Exec) builder(p *Ptr) *builderGhost {
+	if p.Obj == nil {
+		ex.goPanicRuntime("nil pointer dereference")
+	}
+	k := "builder:" + ptrKey(p)
+	if g, ok := ex.ghost[k]; ok {
+		return g.(*builderGhost)
+	}
+	g := &builderGhost{s: &Str{}}
+	ex.ghost[k] = g
+	return g
+}
+
+// encodeRune appends the UTF-8 encoding of a rune term (constant, or symbolic ASCII).
+func (ex *Exec) encodeRune(fr *frame, r *Term) []*Term {
+	if r.Op == OConst {
+		var out []*Term
+		for _, b := range []byte(string(rune(sx(r.Val, r.W)))) {
+			out = append(out, ex.B.Const(8, uint64(b)))
+		}
+		return out
+	}
+	ex.requireASCIIRune(fr, r)
+	return []*Term{ex.B.Zext(r, 8)}
+}
+
+func init() {
+	m := models
+	m["(*sync.Map).Load"] = func(ex *Exec, fr *frame, a []Value) Value {
+		mo := ex.syncMap(a[0].(*Ptr))
+		if i := ex.mapFind(mo, a[1]); i >= 0 {
+			return Tuple{mo.Entries[i].V, ex.B.True}
+		}
+		return Tuple{&Iface{}, ex.B.False}
+	}
+	m["(*sync.Map).Store"] = func(ex *Exec, fr *frame, a []Value) Value {
+		ex.mapUpdate(ex.syncMap(a[0].(*Ptr)), a[1], a[2])
+		return nil
+	}
+	m["(*sync.Map).LoadOrStore"] = func(ex *Exec, fr *frame, a []Value) Value {
+		mo := ex.syncMap(a[0].(*Ptr))
+		if i := ex.mapFind(mo, a[1]); i >= 0 {
+			return Tuple{mo.Entries[i].V, ex.B.True}
+		}
+		ex.mapUpdate(mo, a[1], a[2])
+		return Tuple{a[2], ex.B.False}
+	}
+	m["(*sync.Map).Delete"] = func(ex *Exec, fr *frame, a []Value) Value {
+		ex.mapDelete(ex.syncMap(a[0].(*Ptr)), a[1])
+		return nil
+	}
+	m["(*sync.Map).LoadAndDelete"] = func(ex *Exec, fr *frame, a []Value) Value {
+		mo := ex.syncMap(a[0].(*Ptr))
+		if i := ex.mapFind(mo, a[1]); i >= 0 {
+			v := mo.Entries[i].V
+			ex.mapDelete(mo, a[1])
+			return Tuple{v, ex.B.True}
+		}
+		return Tuple{&Iface{}, ex.B.False}
+	}
+	m["(*sync.Map).Range"] = func(ex *Exec, fr *frame, a []Value) Value {
+		mo := ex.syncMap(a[0].(*Ptr))
+		for _, e := range append([]MapEntry(nil), mo.Entries...) {
+			r := ex.call(fr, a[1].(*Func), []Value{e.K, e.V}, nil).(*Term)
+			if !ex.X.Branch(r) {
+				break
+			}
+		}
+		return nil
+	}
+	m["(*sync.Once).Do"] = func(ex *Exec, fr *frame, a []Value) Value {
+		k := "once:" + ptrKey(a[0].(*Ptr))
+		if _, done := ex.ghost[k]; done {
+			return nil
+		}
+		ex.ghost[k] = true
+		ex.call(fr, a[1].(*Func), nil, nil)
+		return nil
+	}
+	// sync/atomic on int32/int64/uint32/uint64 (the baton makes every step atomic)
+	for _, ty := range []string{"Int32", "Int64", "Uint32", "Uint64"} {
+		ty := ty
+		m["sync/atomic.Add"+ty] = func(ex *Exec, fr *frame, a []Value) Value {
+			p := a[0].(*Ptr)
+			ex.yieldPoint("lock")
+			nv := ex.B.Bin(OAdd, ex.load(p).(*Term), a[1].(*Term))
+			ex.store(p, nv)
+			return nv
+		}
+		m["sync/atomic.Load"+ty] = func(ex *Exec, fr *frame, a []Value) Value {
+			ex.yieldPoint("lock")
+			return ex.load(a[0].(*Ptr))
+		}
+		m["sync/atomic.Store"+ty] = func(ex *Exec, fr *frame, a []Value) Value {
+			ex.yieldPoint("lock")
+			ex.store(a[0].(*Ptr), a[1])
+			return nil
+		}
+		m["sync/atomic.CompareAndSwap"+ty] = func(ex *Exec, fr *frame, a []Value) Value {
+			p := a[0].(*Ptr)
+			ex.yieldPoint("lock")
+			if ex.X.Branch(ex.B.Eq(ex.load(p).(*Term), a[1].(*Term))) {
+				ex.store(p, a[2])
+				return ex.B.True
+			}
+			return ex.B.False
+		}
+	}
+	// strings.Builder
+	m["(*strings.Builder).WriteString"] = func(ex *Exec, fr *frame, a []Value) Value {
+		g := ex.builder(a[0].(*Ptr))
+		s := a[1].(*Str)
+		g.s = &Str{B: append(append([]*Term(nil), g.s.B...), s.B...)}
+		return Tuple{ex.i64(int64(len(s.B))), &Iface{}}
+	}
+	m["(*strings.Builder).WriteByte"] = func(ex *Exec, fr *frame, a []Value) Value {
+		g := ex.builder(a[0].(*Ptr))
+		g.s = &Str{B: append(append([]*Term(nil), g.s.B...), a[1].(*Term))}
+		return &Iface{}
+	}
+	m["(*strings.Builder).WriteRune"] = func(ex *Exec, fr *frame, a []Value) Value {
+		g := ex.builder(a[0].(*Ptr))
+		enc := ex.encodeRune(fr, a[1].(*Term))
+		g.s = &Str{B: append(append([]*Term(nil), g.s.B...), enc...)}
+		return Tuple{ex.i64(int64(len(enc))), &Iface{}}
+	}
+	m["(*strings.Builder).Write"] = func(ex *Exec, fr *frame, a []Value) Value {
+		g := ex.builder(a[0].(*Ptr))
+		sl := a[1].(*Slice)
+		nb := append([]*Term(nil), g.s.B...)
+		for i := 0; i < sl.Len; i++ {
+			nb = append(nb, sl.Arr.V.(*ArrayV).E[sl.Off+i].(*Term))
+		}
+		g.s = &Str{B: nb}
+		return Tuple{ex.i64(int64(sl.Len)), &Iface{}}
+	}
+	m["(*strings.Builder).String"] = func(ex *Exec, fr *frame, a []Value) Value { return ex.builder(a[0].(*Ptr)).s }
+	m["(*strings.Builder).Len"] = func(ex *Exec, fr *frame, a []Value) Value {
+		return ex.i64(int64(len(ex.builder(a[0].(*Ptr)).s.B)))
+	}
+	m["(*strings.Builder).Grow"] = func(ex *Exec, fr *frame, a []Value) Value { return nil }
+	m["(*strings.Builder).Reset"] = func(ex *Exec, fr *frame, a []Value) Value {
+		ex.builder(a[0].(*Ptr)).s = &Str{}
+		return nil
+	}
+	// time.Timer: the model clock may run arbitrarily fast, so a timer can fire
+	// as soon as it is armed (handlers may take arbitrarily long in real time).
+	m["time.NewTimer"] = func(ex *Exec, fr *frame, a []Value) Value {
+		tt := ex.P.Pkgs["time"].Type("Timer").Type()
+		timeT := ex.P.Pkgs["time"].Type("Time").Type()
+		ex.nextObj++
+		c := &ChanObj{ID: ex.nextObj, Cap: 1, ET: timeT, Label: "timer.C"}
+		c.Buf = []Value{ex.zero(timeT)}
+		st := ex.zero(tt).(*StructV)
+		nf := append([]Value(nil), st.F...)
+		nf[0] = &Chan{C: c}
+		obj := ex.newObject(tt, &StructV{F: nf}, "time.Timer")
+		ex.logEvent("timer", a[0])
+		return &Ptr{Obj: obj}
+	}
+	m["(*time.Timer).Stop"] = func(ex *Exec, fr *frame, a []Value) Value {
+		t := ex.load(a[0].(*Ptr)).(*StructV)
+		if c, ok := t.F[0].(*Chan); ok && c.C != nil && len(c.C.Buf) > 0 {
+			c.C.Buf = nil
+			return ex.B.True
+		}
+		return ex.B.False
+	}
+	m["(*time.Timer).Reset"] = func(ex *Exec, fr *frame, a []Value) Value {
+		t := ex.load(a[0].(*Ptr)).(*StructV)
+		if c, ok := t.F[0].(*Chan); ok && c.C != nil {
+			was := len(c.C.Buf) > 0
+			c.C.Buf = []Value{ex.zero(c.C.ET)}
+			return ex.B.Bool(was)
+		}
+		return ex.B.False
+	}
+}
